@@ -4,7 +4,7 @@
    signatures share an identifier only if H itself collides on the two exhibited
    streams.                                                                      *)
 From Coq Require Import ZArith NArith List Bool.
-From XV Require Import core.Value model.Hash model.Ser proofs.Ser_lemmas proofs.Tok_lemmas.
+From XV Require Import core.Value model.Hash model.Ser model.Deep proofs.Ser_lemmas proofs.Tok_lemmas proofs.Deep_lemmas.
 Import ListNotations.
 
 (* the encoding of a parameter value is uniquely readable: for every well-formed
@@ -84,3 +84,34 @@ Theorem C03_model_full_identifier_hashes_stream : forall H raw pre init,
   full_of H raw pre init = H (full_stream raw (sort_by (fun x => x) pre) init).
 Proof. exact full_of_stream. Qed.
 Print Assumptions C03_model_full_identifier_hashes_stream.
+
+(* RECURSIVELY: the deep signature of a configuration is its signature with every nested
+   configuration unfolded (type identifiers, parameter names, declared types and values at every
+   depth; cycle references at their relative positions).  The identifier of a node is the identifier
+   of its deep signature ...                                                                       *)
+Theorem C03_identifier_of_deep_signature : forall H cs h cty fuel st n,
+  hnode H cs h (fun _ => None) fuel st n = (do r <- dnode cs h cty fuel st n; Ok (node_id H (fst r), snd r)).
+Proof. exact hnode_deep. Qed.
+Print Assumptions C03_identifier_of_deep_signature.
+
+(* ... and two configurations, of any two graphs, whose deep signatures are in the typed domain at
+   every level (declared types given by type identifier and parameter name): equal identifiers force
+   EQUAL DEEP SIGNATURES - a difference anywhere below, at any depth, changes the identifier - or two
+   different byte streams on which H collides are exhibited                                        *)
+Theorem C03_deep_injective : forall H cty cs1 h1 f1 st1 n1 cs2 h2 f2 st2 n2 t1 e1 t2 e2 d1 x1 d2 x2,
+  dnode cs1 h1 cty f1 st1 n1 = Ok (t1, e1) -> dnode cs2 h2 cty f2 st2 n2 = Ok (t2, e2) ->
+  wfd H cty t1 -> wfd H cty t2 ->
+  hnode H cs1 h1 (fun _ => None) f1 st1 n1 = Ok (d1, x1) -> hnode H cs2 h2 (fun _ => None) f2 st2 n2 = Ok (d2, x2) ->
+  d1 = d2 -> t1 = t2 \/ collision H.
+Proof. exact deep_ident_inj. Qed.
+Print Assumptions C03_deep_injective.
+
+Theorem C03_deep_domain_test_sound : forall H cty v, wfdb H cty true v = true -> wfd H cty v.
+Proof. exact wfdb_sound. Qed.
+Print Assumptions C03_deep_domain_test_sound.
+
+(* the one-level theorem with declared types that need only agree when the type identifiers agree *)
+Theorem C03_signature_encoding_injective_per_class : forall s1 s2,
+  wf_sig s1 -> wf_sig s2 -> (ss_tid s1 = ss_tid s2 -> same_decl s1 s2) -> enc_sig s1 = enc_sig s2 -> s1 = s2.
+Proof. exact enc_sig_inj_tid. Qed.
+Print Assumptions C03_signature_encoding_injective_per_class.
